@@ -173,6 +173,55 @@ def derive_stream(chk, n):
     chk.compare("decorator-arguments-vs-derive", cases, impl, run_driver("Dr", lines))
 
 
+def second_evaluation(world, seeds, ss, graph, add):
+    """
+    Evaluation 1 on a broker, then the value add=(id, text) is supplied for a component that produced none, then
+    evaluation 2 on the SAME broker.  Reference: ONE evaluation on a fresh broker that holds everything present after
+    evaluation 1 plus `add`.  Returns None when the two agree, else a description.  (What evaluation 1 left in the
+    broker's exception / missing-requirements records is no input of evaluation 2: whether a component is invoked is
+    decided by what is present.)
+    """
+    def calls_of(world):
+        return sorted((c, a) for c, a in world.calls if not (a and a[0] == "elem"))
+
+    def inst_of(b):
+        return dict((world.ids[c], W.canon_val(world, v)) for c, v in b.instances.items() if c in world.ids)
+    r1 = W.evaluate(world, seeds, ss, graph, mode="run")
+    if r1.error is not None:
+        return None
+    b = r1.broker
+    present = [(c, v) for c, v in b.instances.items() if c in world.ids]
+    x, text = add
+    if world.comps[x] in b.instances:
+        return None
+    b[world.comps[x]] = W.uncanon_val(text)
+    world.calls = []
+    try:
+        dr.run(dict((k, set(v)) for k, v in graph.items()), broker=b)
+    except Exception as ex:
+        return "the second evaluation raised %r" % (ex,)
+    calls2, inst2 = calls_of(world), inst_of(b)
+    ref = world.new_broker([], ss)
+    W.instrument(world, ref)
+    for c, v in present:
+        ref[c] = v
+    ref[world.comps[x]] = W.uncanon_val(text)
+    world.calls = []
+    dr.run(dict((k, set(v)) for k, v in graph.items()), broker=ref)
+    callsr, instr = calls_of(world), inst_of(ref)
+    if calls2 != callsr:
+        never = sorted(set(c for c, _ in callsr) - set(c for c, _ in calls2))
+        extra = sorted(set(c for c, _ in calls2) - set(c for c, _ in callsr))
+        return ("after %d was supplied with %s, the second evaluation on the same broker invoked %s; enabled components with every "
+                "requirement present are %s (not invoked although their requirements are met: %s; invoked without need: %s)"
+                % (x, text, sorted(set(c for c, _ in calls2)), sorted(set(c for c, _ in callsr)), never, extra))
+    if inst2 != instr:
+        diff = sorted(k for k in set(inst2) | set(instr) if inst2.get(k) != instr.get(k))
+        return "after %d was supplied with %s, the second evaluation left %s, expected %s" % (
+            x, text, dict((k, inst2.get(k)) for k in diff), dict((k, instr.get(k)) for k in diff))
+    return None
+
+
 def run(chk):
     quick = chk.tier == "quick"
     n_worlds = 1200 if quick else 20000
@@ -203,6 +252,16 @@ def run(chk):
         lines.append(r.run_line)
         impl.append(r.text)
         cases.append(case)
+        if idx % 3 == 1 and r.error is None:
+            # history on ONE broker: a component that produced nothing gets a value afterwards and the graph is evaluated again
+            absent = [world.ids[c] for c in graph if c not in r.broker.instances and spec[world.ids[c]]["kind"] != "point"]
+            hot = [x for x in absent if any(world.comps[x] in v for v in graph.values())] or absent
+            if hot:
+                add = (rng.choice(hot), "A%d" % (8000 + rng.randrange(100)))
+                why = second_evaluation(world, seeds, ss, graph, add)
+                chk.count("second-evaluation-on-one-broker")
+                if why:
+                    chk.failure(why, dict(case, mode="second-evaluation", add=list(add)))
         p = W.split_text(r.text)
         fired = len(set(c for c, _ in r.calls))
         chk.case(r.text, nontrivial=fired >= 1 and (bool(p["missing"]) or ":S" in p["inst"]))
@@ -221,4 +280,12 @@ def replay(data):
         print("decorator-argument case:", data["case"]); print(data.get("desc"))
         print("re-run ./check C02 with VERIF_SEED=%s to reproduce" % data.get("seed"))
         return 1
+    if data["case"].get("mode") == "second-evaluation":
+        case = data["case"]
+        world, seeds, graph = W.rebuild(case)
+        why = second_evaluation(world, seeds, case.get("store_skips", False), graph, tuple(case["add"]))
+        print("history: evaluation, then %s supplied for component %s, then a second evaluation on the same broker" % (case["add"][1], case["add"][0]))
+        print("oracle:", why or "the second evaluation invokes exactly the components whose requirements are present")
+        print("property violated on this input" if why else "property holds on this input")
+        return 1 if why else 0
     return W.generic_replay(data, oracle)
